@@ -419,6 +419,22 @@ func scCounterfeit(r *Run) {
 			maxWait = c.id.waitBefore
 		}
 	}
+	// the server is not new: somebody connected (or tried to) before the certificates of this run's impostors
+	// ran out - whatever a long-lived server keeps from one handshake to the next is in place
+	if r.Intn("early", 2) == 0 {
+		ek := fakeKind(r.Intn("early", 2)) // honest, or a certificate for somebody else's key
+		eid := makeIdentity(r, ek, clientPKI, certs.RawStringName("early-visitor"), certs.RawStringName("other"))
+		ecfg := transport.ClientConfig{Exchanger: eid.exchanger, Leaf: eid.leaf, Intermediate: eid.inter, HSTimeout: 3 * time.Second,
+			Verify: transport.VerifyConfig{Store: pki.Store(), Name: srv.Name}}
+		if hidden {
+			ecfg.ServerKEMKey = &srv.KEM.Public
+		}
+		eep := n.Listen("early-visitor", Addr(9, 3999), srv.Addr)
+		ec := transport.NewClient(eep, srv.Addr, ecfg)
+		WithTimeout(r, 30*time.Second, func() { ec.Handshake() })
+		WithTimeout(r, 30*time.Second, func() { ec.Close() })
+		r.CountFault("earlier-handshake-on-the-same-server", 1)
+	}
 	time.Sleep(maxWait)
 	for _, c := range cls {
 		c := c
